@@ -264,8 +264,13 @@ def run(ctx):
             # the failing ordinal was never reached: an ordinary run, judged as such below
         if g.get("big"):
             fallback_runs[0] += any(e["e"] == "WEncCode" and e["d"] == 1 for e in evs)
-        if any(e["e"] in ("OVERFLOW", "TOOMANYCALLS") for e in evs):
-            raise MachineryError("driver event buffer overflow / too many calls: " + label)
+        if any(e["e"] == "TOOMANYCALLS" for e in evs):
+            # 200000 lzma_code() calls without an end: the coder keeps returning LZMA_OK without getting anywhere
+            violation("livelock:%s:T%d:to%d" % (g["inp"], g["nw"], g["timeout"]), "200000 lzma_code() calls did not finish the run: calls keep "
+                      "returning without progress and without LZMA_BUF_ERROR (%s)\n%s" % (label, json.dumps(evs[-8:])), rp)
+            continue
+        if any(e["e"] == "OVERFLOW" for e in evs):
+            raise MachineryError("driver event buffer overflow: " + label)
         ri = max([i for i, e in enumerate(evs) if e["e"] == "Reinited"] + [0])
         blocks = [e for e in evs[ri:] if e["e"] == "WFinCoder" and e["a"] == 2 and e["d"] == 1]
         data = g["data"]
